@@ -68,6 +68,28 @@ extern uint32_t verif_n; /* the node of the block handed to buddy_free / realloc
 
 #define B_RET_OFF ((uint32_t)((char *)__CPROVER_return_value - (char *)self->base_mem))
 
+/* The postconditions of buddy_malloc / buddy_free can be enforced all at once (C12_SLICE undefined or 0) or in three
+ * slices, each a separate solver query over the same pre-state (all well-formed trees): 1 = representation invariant,
+ * 2 = result/placement clauses, 3 = live-set clauses (ghost node). The union of the slices is the full contract. */
+#ifndef C12_SLICE
+#define C12_SLICE 0
+#endif
+#if C12_SLICE == 0 || C12_SLICE == 1
+#define ENS_WF(e) __CPROVER_ensures(e)
+#else
+#define ENS_WF(e)
+#endif
+#if C12_SLICE == 0 || C12_SLICE == 2
+#define ENS_PLACE(e) __CPROVER_ensures(e)
+#else
+#define ENS_PLACE(e)
+#endif
+#if C12_SLICE == 0 || C12_SLICE == 3
+#define ENS_LIVE(e) __CPROVER_ensures(e)
+#else
+#define ENS_LIVE(e)
+#endif
+
 void buddy_init(struct buddy_state *self)
 __CPROVER_requires(__CPROVER_rw_ok(self, sizeof(*self)))
 __CPROVER_requires(verif_g < B_NODES)
@@ -85,22 +107,22 @@ __CPROVER_requires(verif_g_live_before == b_live(self->longest, verif_g) && veri
 		   verif_root_before == self->longest[0])
 /* frame: only the allocation tree; in particular no byte of any block changes */
 __CPROVER_assigns(__CPROVER_object_upto(self->longest, sizeof(self->longest)))
-__CPROVER_ensures(b_wf(self))
+ENS_WF(b_wf(self))
 /* fails exactly when no free block of the class exists, and then changes nothing */
-__CPROVER_ensures((__CPROVER_return_value == NULL) == (verif_root_before < req_blks_exp))
-__CPROVER_ensures(__CPROVER_return_value == NULL ==> self->longest[verif_g] == verif_g_val_before)
+ENS_PLACE((__CPROVER_return_value == NULL) == (verif_root_before < req_blks_exp))
+ENS_PLACE(__CPROVER_return_value == NULL ==> self->longest[verif_g] == verif_g_val_before)
 /* inside the arena, aligned to its size */
-__CPROVER_ensures(__CPROVER_return_value != NULL ==>
+ENS_PLACE(__CPROVER_return_value != NULL ==>
 	(__CPROVER_same_object(__CPROVER_return_value, self) && (char *)__CPROVER_return_value >= (char *)self->base_mem &&
 	 B_RET_OFF + (1U << req_blks_exp) <= B_TOTAL && (B_RET_OFF & ((1U << req_blks_exp) - 1U)) == 0))
 /* the block is now live at its node */
-__CPROVER_ensures(__CPROVER_return_value != NULL ==> b_live(self->longest, b_node(B_RET_OFF, req_blks_exp)))
+ENS_LIVE(__CPROVER_return_value != NULL ==> b_live(self->longest, b_node(B_RET_OFF, req_blks_exp)))
 /* it was not live before, it overlaps no block that was live before, and every such block stays live */
-__CPROVER_ensures((__CPROVER_return_value != NULL && verif_g_live_before) ==>
+ENS_LIVE((__CPROVER_return_value != NULL && verif_g_live_before) ==>
 	(verif_g != b_node(B_RET_OFF, req_blks_exp) && b_disjoint(verif_g, b_node(B_RET_OFF, req_blks_exp)) &&
 	 b_live(self->longest, verif_g)))
 /* and nothing else became live */
-__CPROVER_ensures((__CPROVER_return_value != NULL && !verif_g_live_before && verif_g != b_node(B_RET_OFF, req_blks_exp)) ==>
+ENS_LIVE((__CPROVER_return_value != NULL && !verif_g_live_before && verif_g != b_node(B_RET_OFF, req_blks_exp)) ==>
 	!b_live(self->longest, verif_g))
 ;
 
@@ -112,13 +134,13 @@ __CPROVER_requires(verif_g < B_NODES && verif_n < B_NODES)
 __CPROVER_requires(b_live(self->longest, verif_n) && ptr == (void *)(self->base_mem + b_off(verif_n)))
 __CPROVER_requires(verif_g_live_before == b_live(self->longest, verif_g))
 __CPROVER_assigns(__CPROVER_object_upto(self->longest, sizeof(self->longest)))
-__CPROVER_ensures(b_wf(self))
-__CPROVER_ensures(__CPROVER_return_value == (uint_fast32_t)1U << b_lev(verif_n))
+ENS_WF(b_wf(self))
+ENS_PLACE(__CPROVER_return_value == (uint_fast32_t)1U << b_lev(verif_n))
 /* exactly that block stops being live */
-__CPROVER_ensures(!b_live(self->longest, verif_n))
-__CPROVER_ensures(verif_g != verif_n ==> b_live(self->longest, verif_g) == verif_g_live_before)
+ENS_LIVE(!b_live(self->longest, verif_n))
+ENS_LIVE(verif_g != verif_n ==> b_live(self->longest, verif_g) == verif_g_live_before)
 /* the space is reusable: a request of the same class cannot fail now (see buddy_malloc's NULL clause) */
-__CPROVER_ensures(self->longest[0] >= b_lev(verif_n))
+ENS_PLACE(self->longest[0] >= b_lev(verif_n))
 ;
 
 struct buddy_realloc_res buddy_best_effort_realloc(struct buddy_state *self, void *ptr, size_t req_size)
